@@ -149,4 +149,30 @@ pub broadcast group group_string_map {
     axiom_borrowed_removed_str,
 }
 
+// ---------------------------------------------------------------- BTreeSet::{first, pop_first} (no vstd contract)
+use std::collections::BTreeSet;
+
+/// ghost: the total order `Ord` gives to keys of type T
+pub uninterp spec fn ord_le<T>(a: T, b: T) -> bool;
+
+/// m is the least element of s
+pub open spec fn is_min<T>(m: T, s: Set<T>) -> bool {
+    s.contains(m) && forall|x: T| s.contains(x) ==> ord_le(m, x)
+}
+
+pub assume_specification<T: Ord, A: Allocator + Clone>[ BTreeSet::<T, A>::first ](s: &BTreeSet<T, A>) -> (r: Option<&T>)
+    ensures
+        r is None <==> s@.len() == 0,
+        r matches Some(m) ==> is_min(*m, s@),
+;
+
+pub assume_specification<T: Ord, A: Allocator + Clone>[ BTreeSet::<T, A>::pop_first ](s: &mut BTreeSet<T, A>) -> (r: Option<T>)
+    ensures
+        r is None <==> old(s)@.len() == 0,
+        r is None ==> final(s)@ == old(s)@,
+        r matches Some(m) ==> is_min(m, old(s)@) && final(s)@ == old(s)@.remove(m),
+;
+
+pub assume_specification<P: AsRef<std::path::Path>>[ std::fs::remove_file::<P> ](p: P) -> (r: std::io::Result<()>);
+
 } // verus!
